@@ -11,6 +11,7 @@ of the CURRENT source):
     integer_promotion  arithmetic_conversion
     get_int_mir_type  promote_mir_int_type  get_mir_type
     get_mir_type_insn_code  get_compare_branch_code
+    + the fragment of check() that decides the expression type of a bit-field (bf_narrow_p, bf_narrow_bt)
 
 Encoding.  `struct type` is represented by the three fields these functions look at:
 `CTy.mode` (enum type_mode), `CTy.bt` (u.basic_type) and `CTy.ebt` = what `get_enum_basic_type`
@@ -424,6 +425,89 @@ def b2i (b : Bool) : Int := if b then 1 else 0
 """
 
 
+def mentions(n, name):
+    if isinstance(n, dict):
+        if n.get("kind") == "DeclRefExpr" and n.get("referencedDecl", {}).get("name") == name:
+            return True
+        return any(mentions(c, name) for c in n.get("inner", []))
+    return False
+
+
+def bf_probe(ev, known):
+    """the fragment of check() (N_FIELD / N_DEREF_FIELD) that decides the expression type of a bit-field:
+         if (... && (width_expr = width->attr)->const_p && <tests on width_expr->c.i_val>)
+           e->type->u.basic_type = <expr>;
+       -> bf_narrow_p (w) (t) : Bool   = the conjuncts that test width_expr->c.i_val
+          bf_narrow_bt (w) (t) : Int   = the assigned basic type
+       with w = width_expr->c.i_val and t = *e->type (the declared type of the member)"""
+    fd = ast_of("check")
+    hits = []
+
+    def walk(n):
+        if isinstance(n, dict):
+            if n.get("kind") == "IfStmt" and len(n.get("inner", [])) >= 2 and mentions(n["inner"][0], "width_expr"):
+                th = n["inner"][1]
+                while th.get("kind") == "CompoundStmt" and len(th.get("inner", [])) == 1:
+                    th = th["inner"][0]
+                if th.get("kind") == "BinaryOperator" and th.get("opcode") == "=":
+                    lhs = th["inner"][0]
+                    while lhs.get("kind") in ("ParenExpr", "ImplicitCastExpr"):
+                        lhs = lhs["inner"][0]
+                    if lhs.get("kind") == "MemberExpr" and lhs.get("name") == "basic_type":
+                        hits.append((n["inner"][0], th["inner"][1]))
+            for c in n.get("inner", []):
+                walk(c)
+    walk(fd)
+    if len(hits) != 1:
+        die("expected exactly one bit-field expression-type assignment in check(), found %d" % len(hits))
+    cond, rhs = hits[0]
+
+    def subst(n):
+        if not isinstance(n, dict):
+            return n
+        if n.get("kind") == "MemberExpr" and n.get("name") == "i_val" and mentions(n, "width_expr"):
+            return {"kind": "DeclRefExpr", "type": {"qualType": "mir_llong"}, "referencedDecl": {"kind": "ParmVarDecl", "name": "w"}}
+        if n.get("kind") == "MemberExpr" and n.get("name") == "type" and mentions(n, "e") and not mentions(n, "width_expr"):
+            return {"kind": "DeclRefExpr", "type": {"qualType": "struct type *"}, "referencedDecl": {"kind": "ParmVarDecl", "name": "t"}}
+        m = dict(n)
+        if "inner" in m:
+            m["inner"] = [subst(c) for c in m["inner"]]
+        return m
+
+    def conjuncts(n):
+        while n.get("kind") in ("ParenExpr", "ImplicitCastExpr"):
+            n = n["inner"][0]
+        if n.get("kind") == "BinaryOperator" and n.get("opcode") == "&&":
+            return conjuncts(n["inner"][0]) + conjuncts(n["inner"][1])
+        return [n]
+
+    tests = []
+    for c in conjuncts(cond):
+        k = c
+        while k.get("kind") in ("ParenExpr", "ImplicitCastExpr"):
+            k = k["inner"][0]
+        if k.get("kind") == "BinaryOperator" and k.get("opcode") in ("<", "<=", ">", ">=", "==", "!=") and mentions(k["inner"][0], "width_expr") \
+                and any(x.get("name") == "i_val" for x in iter_nodes(k["inner"][0])):
+            tests.append(k)
+    if not tests:
+        die("no test of width_expr->c.i_val in the bit-field expression-type condition")
+    t = Tr(ev, known)
+    t.ints.add("w"); t.structs.add("t")
+    c_lean = " && ".join(t.cond(subst(k)) for k in tests)
+    r_lean = t.expr(subst(rhs))
+    return ("/-- check(), N_FIELD: the tests on the bit-field width under which the expression type is replaced -/\n"
+            f"def bf_narrow_p (w : Int) (t : CTy) : Bool := {c_lean}\n"
+            "/-- ... and the basic type it is replaced by -/\n"
+            f"def bf_narrow_bt (w : Int) (t : CTy) : Int := {r_lean}\n"), t.used_enums
+
+
+def iter_nodes(n):
+    if isinstance(n, dict):
+        yield n
+        for c in n.get("inner", []):
+            yield from iter_nodes(c)
+
+
 def main():
     ev, groups = enum_values()
     known, defs, used = [], [], set()
@@ -432,6 +516,8 @@ def main():
         defs.append(t.func(ast_of(fn)))
         used |= t.used_enums
         known.append(fn)
+    bf_defs, bf_used = bf_probe(ev, known)
+    used |= bf_used
     out = [PRELUDE]
     for g in ("basic_type", "type_mode", "MIR_type_t"):
         for nm in groups[g]:
@@ -451,6 +537,7 @@ def main():
         if fn == "basic_type_size":
             out.append("/-- primitive `raw_type_size` for scalar types (set by set_type_layout from basic_type_size) -/")
             out.append("def raw_type_size (t : CTy) : Int :=\n  if t.mode = TM_PTR then 8 else basic_type_size (if t.mode = TM_ENUM then t.ebt else t.bt)\n")
+    out.append(bf_defs)
     names = groups["MIR_insn_code_t"]
     out.append("/-- names of MIR_insn_code_t in enum order -/")
     out.append("def insnNames : List String := [")
